@@ -207,8 +207,8 @@ def addName (f : String) (ns : List String) : List String := if ns.contains f th
 /-- `Structure.__setattr__` on a class with `_enable_undefined_value`: after the immutability and
     the non-field checks, `None` for a non-required name is never stored — a field is recorded in
     `_none_fields` (whatever `__dict__` holds for it stays) — and a non-`None` value for a field
-    first discards the name from `_none_fields`, *then* goes through the validated assignment
-    (so a rejected value has already un-recorded the explicit `None`) -/
+    discards the name from `_none_fields` and goes through the validated assignment; if that is
+    rejected the name is recorded again (failure-atomic since 810b853) -/
 def setattrUndef (O : Oracles) (c : ClassOpts) (fields : List (String × FieldDecl)) (x : Inst)
     (f : String) (v : PyVal) : Inst × Outcome :=
   if c.immutable then (x, .err .valueErr)
@@ -218,8 +218,10 @@ def setattrUndef (O : Oracles) (c : ClassOpts) (fields : List (String × FieldDe
     else if v.isNone && !c.required.contains f then
       (if isField then { x with nones := addName f x.nones } else x, .ok)
     else
-      let ns := if isField && !v.isNone then x.nones.filter (fun n => n != f) else x.nones
       let r := setattrStep O c fields x.attrs f v
+      let ns := match r.2 with
+        | .ok => if isField && !v.isNone then x.nones.filter (fun n => n != f) else x.nones
+        | .err _ => x.nones       -- a rejected assignment restores `_none_fields` (810b853)
       ({ x with attrs := r.1, nones := ns }, r.2)
 
 /-- `Structure.__setattr__` refuses an immutable structure only once `_instantiated` is set;
